@@ -22,13 +22,43 @@ inductive SheetKind where
   | user    -- user_stylesheets                ('user', None)
   deriving Repr, DecidableEq
 
+/-- What `find_stylesheets` reads of a `<style>` / `<link>` element besides `media`. -/
+structure SheetElem where
+  /-- `element.get('type', 'text/css').split(';', 1)[0].strip()` -/
+  mime : String := "text/css"
+  /-- `element.tag == 'link'` (else `'style'`) -/
+  isLink : Bool := false
+  /-- `element.get('href')` is non-empty and resolves to a URL -/
+  hasHref : Bool := true
+  /-- whitespace-separated tokens of the `rel` attribute -/
+  rels : List String := ["stylesheet"]
+  /-- the fetch did not raise `URLFetchingError` -/
+  fetchOk : Bool := true
+  deriving Repr
+
 structure DocSheet where
   kind : SheetKind
   /-- `media` attribute of the `<style>` / `<link>` element, split on commas (author sheets);
       `none` = no such test (other kinds) -/
   media : Option (List String)
   rules : List SRule
+  elem : SheetElem := {}
   deriving Repr
+
+/-- `element_has_link_type(element, link_type)`. -/
+def hasLinkType (rels : List String) (linkType : String) : Bool :=
+  rels.any (fun token => String.ofList (token.toList.map Char.toLower) == linkType)
+
+/-- The tests of `find_stylesheets` on one `<style>` / `<link>` element, in the code's order. -/
+def sheetFound (device : String) (s : DocSheet) : Bool :=
+  if s.elem.mime != "text/css" then false
+  else if !(match s.media with
+            | none => true
+            | some m => evaluateMediaQuery m device) then false
+  else if !s.elem.isLink then true
+  else if !s.elem.hasHref then false
+  else if !hasLinkType s.elem.rels "stylesheet" || hasLinkType s.elem.rels "alternate" then false
+  else s.elem.fetchOk
 
 /-- "selector `sel` of rule `rule` of sheet `sheet` matches this element" (given by construction). -/
 structure MatchRef where
@@ -42,6 +72,8 @@ structure MatchRef where
 structure DocElem where
   attrs : List (AttrBlock Casc)
   hits : List MatchRef
+  /-- attributes of the element (`element.get`) -/
+  elemAttrs : List (String × Val) := []
   deriving Repr
 
 structure Doc where
@@ -64,10 +96,7 @@ def sheetSpecOf : SheetKind → Option (List Nat)
 def sheetOrder (doc : Doc) : List Nat :=
   let idx := (List.range doc.sheets.length).zip doc.sheets
   let pick (k : SheetKind) : List Nat := (idx.filter (fun p => p.2.kind == k)).map (·.1)
-  let authorOk : List Nat := (idx.filter (fun p => p.2.kind == .author &&
-    match p.2.media with
-    | none => true
-    | some m => evaluateMediaQuery m doc.device)).map (·.1)
+  let authorOk : List Nat := (idx.filter (fun p => p.2.kind == .author && sheetFound doc.device p.2)).map (·.1)
   pick .ua ++ (if doc.presentationalHints then pick .ph else []) ++ authorOk ++ pick .user
 
 def declsOf (doc : Doc) (rule : Nat) : List (Decl Casc) :=
@@ -95,7 +124,7 @@ def sheetMatches (doc : Doc) (e : DocElem) : List (SheetMatches Casc) :=
 /-- `cascaded_styles.get((element, pseudo), {})` with the weights dropped. -/
 def elemOf (doc : Doc) (e : DocElem) (pseudo : Option String) : Except CErr Elem := do
   let st ← elementCascade e.attrs (sheetMatches doc e) pseudo
-  pure { cascaded := st.map (fun p => (p.1, p.2.1)), pseudo := pseudo }
+  pure { cascaded := st.map (fun p => (p.1, p.2.1)), pseudo := pseudo, attrs := e.elemAttrs }
 
 def chainOf (doc : Doc) : List DocElem → Except CErr (List Elem)
   | [] => .ok []
